@@ -384,7 +384,32 @@ def _diffuse(ck: Checker, prog: Program):
               f"np.array([{psd.format(c='ns')} + {psd.format(c='ew')}, {psd.format(c='vt')}]), {FCS_SRC}, settings.smoothing['bandwidth'])")
     want = canon(R.value(_parse(f"np.sqrt({smooth}[0] / {smooth}[1])"), ret))
     got = canon(R.value(b["amplitude"], ret)) if "amplitude" in b else None
-    if got is not None and equal(got, want):
+    same = got is not None and equal(got, want)
+    if not same and "amplitude" in b:
+        # second opinion by path table (unrolls loops over the component names, models lists built by append)
+        from ..pathtable import PathTable
+        try:
+            leaves = [l for l in PathTable(prog, f.module, unroll=True, opaque=("_rpds_single_component", "prepare_records_with_inconsistent_dt", "prepare_fft_settings")).leaves(f.node.body) if l.exit == "return"]
+        except AnalysisError:
+            leaves = []
+        if leaves:
+            ok_all = True
+            for l in leaves:
+                v = l.value
+                if getattr(getattr(v, "func", None), "__name__", "") != "HvsrDiffuseField" or len(v.args) < 2:
+                    ok_all = False
+                    break
+                Tl = PathTable(prog, f.module, unroll=True, opaque=("_rpds_single_component", "prepare_records_with_inconsistent_dt", "prepare_fft_settings"))._T(dict(l.env))
+                try:
+                    w2 = Tl.tr(_parse(f"np.sqrt({smooth}[0] / {smooth}[1])"))
+                except AnalysisError:
+                    ok_all = False
+                    break
+                if not equal(canon(v.args[1]), canon(w2)):
+                    ok_all = False
+                    break
+            same = ok_all
+    if same:
         ck.ok(P + "R4", q, norm_key(ret, 110), detail="sqrt(smooth(Pns + Pew) / smooth(Pvt)); component k from record.k of the retained records")
         ck.ok(P + "R5", q, "power ratio under sqrt: degree (+1, -1) in amplitude", nontrivial=False)
         ck.ok(P + "R3", q, "smoothing: configured operator, bandwidth, padded-FFT frequencies, fcs", nontrivial=False)
